@@ -49,6 +49,9 @@ class AllowedList(Sym):
         self.length, self.member = length, member
 
 
+REQ = z3.Function("reaction_eq", z3.IntSort(), z3.IntSort(), z3.BoolSort())
+
+
 class NetCtx(VerifContext):
     def __init__(self, props=()):
         super().__init__(props)
@@ -74,6 +77,16 @@ class NetCtx(VerifContext):
         if isinstance(x, SObj) and x.cls == "Species":
             return x.id
         raise Unsupported("set element")
+
+    def slist_contains(self, interp, lst, x):
+        """`r in list_of_reactions`: some element compares equal to r; Reaction.__eq__ is an abstract reflexive relation here (its
+        properties are the subject of contracts/identity.py)"""
+        from pyvc.sym import SBool
+        if isinstance(x, SObj) and x.cls == "Reaction" and len(lst.arrays) == 1:
+            j = z3.Int("j_in")
+            interp.assume(REQ(x.id, x.id))
+            return SBool(z3.Exists([j], z3.And(j >= 0, j < lst.length, REQ(z3.Select(lst.arrays[0], j), x.id))))
+        return super().slist_contains(interp, lst, x)
 
     def set_of_list(self, interp, lst):
         from pyvc.loops import concrete_items
